@@ -17,6 +17,9 @@ RULE = ("histories of push / push(None) / extend|update / pull(emptive or not) /
         "domain of Bag/IceBag instances with duplicates (and, in a separate stream, values equal in Python but "
         "serialised differently: 1 / 1.0 / True); between any two ops the store may be closed and reopened with fresh "
         "queue objects injected through Hold (crash point), or a new preloaded queue object injected at a live key; "
+        "every queue enters its Hold through one of 16 entry points (item / attribute assignment, update(mapping), "
+        "update(list|tuple of pairs), update(zip|generator|iterator|map), update(k=q), update({}, k=q), Hold(mapping|list|"
+        "zip|generator|k=q)), singly or all queues in one call; after entering, durable / _key / _sdb / hold[key] are asserted; "
         "after every op the result, list(queue) and the raw durable values at the key are compared with the model and "
         "with a FIFO / ordered-set reference; non-trivial = >= 4 ops with a duplicate value and a reopen between two ops")
 MODELLED = ["the durable side of Durq/Dusq is the dictionary spec of DomIoSuber/DomIoSetSuber (C24's theorem ties it to "
@@ -67,6 +70,16 @@ def directed():
             ops += [["push", 2, 1], ["remove", 2, 1], ["remove", 2, 1], ["remove", 2, 5], ["remove", 2, 0], ["reopen", {}],
                     ["remove", 2, 6], ["push", 2, 2], ["removebad", 2, 0], ["removebad", 2, 2]]
         out.append({"kind": kind, "ops": ops})
+    # every entry point, singly (3 different ones per reopen) and all queues in one call, followed by ops that must reach the store
+    for kind in ("durq", "dusq"):
+        ops = []
+        for v in range(0, len(VIA), 3):
+            vs = [(v + i) % len(VIA) for i in range(3)]
+            ops += [["reopen", {"1": [0]}, vs], ["push", 0, 1], ["push", 2, 2], ["pull", 1, True], ["reinject", 2, [3], vs[0]], ["pull", 2, True]]
+        for v in BULK:
+            ops += [["reopen", {"2": [4]}, v], ["push", 0, 2], ["extend", 1, [0, 1]], ["pull", 2, True]]
+        out.append({"kind": kind, "ops": ops, "via0": 5})
+        out.append({"kind": kind, "ops": [["push", 0, 0], ["push", 1, 1], ["push", 2, 2], ["reopen", {}, 12], ["pull", 0, False]], "via0": [6, 13, 15]})
     # D38 witness: values equal in Python, serialised differently
     out.append({"kind": "dusq", "ops": [["push", 0, 0], ["push", 0, 7], ["push", 0, 8]]})
     out.append({"kind": "dusq", "ops": [["push", 0, 0], ["remove", 0, 7]]})
@@ -113,10 +126,17 @@ def _gen(rng, kind, dom, n):
             pre = {}
             if rng.random() < 0.3:
                 pre[str(rng.randrange(nq))] = [rng.choice(dom) for _ in range(rng.choice([1, 2, 3]))]
-            ops.append(["reopen", pre])
+            ops.append(["reopen", pre, _rand_via(rng)])
         else:
-            ops.append(["reinject", q, [rng.choice(dom) for _ in range(rng.choice([0, 1, 2]))]])
-    return {"kind": kind, "ops": ops}
+            ops.append(["reinject", q, [rng.choice(dom) for _ in range(rng.choice([0, 1, 2]))], rng.randrange(len(VIA))])
+    return {"kind": kind, "ops": ops, "via0": _rand_via(rng)}
+
+
+def _rand_via(rng):
+    r = rng.random()
+    if r < 0.35:
+        return rng.choice(BULK)                       # all queues in one update(...) / Hold(...) call
+    return [rng.randrange(len(VIA)) for _ in range(3)]
 
 
 def generate(rng, tier):
@@ -134,6 +154,15 @@ def generate(rng, tier):
 
 
 # ---------------------------------------------------------------- implementation driver
+# entry points of a queue into a Hold: (name, Gallina entry)
+VIA = [("setitem", "Durq.ESetItem"), ("setattr", "Durq.ESetAttr"), ("update_mapping", "Durq.EUpdateMap"),
+       ("update_list", "(Durq.EUpdatePairs Durq.Reiterable)"), ("update_tuple", "(Durq.EUpdatePairs Durq.Reiterable)"),
+       ("update_zip", "(Durq.EUpdatePairs Durq.OneShot)"), ("update_generator", "(Durq.EUpdatePairs Durq.OneShot)"),
+       ("update_iter", "(Durq.EUpdatePairs Durq.OneShot)"), ("update_kw", "Durq.EUpdateKw"), ("update_empty_kw", "Durq.EUpdateKw"),
+       ("ctor_mapping", "Durq.ECtorMap"), ("ctor_list", "(Durq.ECtorPairs Durq.Reiterable)"),
+       ("ctor_zip", "(Durq.ECtorPairs Durq.OneShot)"), ("ctor_generator", "(Durq.ECtorPairs Durq.OneShot)"),
+       ("ctor_kw", "Durq.ECtorKw"), ("update_map", "(Durq.EUpdatePairs Durq.OneShot)")]
+BULK = list(range(2, len(VIA)))         # entry points that take several items in one call
 _N = [0]
 
 
@@ -153,12 +182,59 @@ class _World:
         self.hold._hold_subery = self.sub
         self.sdb = self.sub.drqs if self.kind == "durq" else self.sub.dsqs
 
-    def inject(self, q, pre):
+    def _new(self, pre):
         from hio.base.hier import Durq, Dusq
         cls = Durq if self.kind == "durq" else Dusq
-        obj = cls([_mk(i) for i in pre]) if pre else cls()
-        self.hold[KEYS[q]] = obj       # Hold.__setitem__ -> inject -> sync()
-        self.qs[q] = obj
+        return cls([_mk(i) for i in pre]) if pre else cls()
+
+    def enter(self, items, via):
+        """items: list of (q, pre); all of them enter a Hold through entry point VIA[via] (one call when
+        the entry point takes several items).  Returns {q: injected?}."""
+        from hio.base.hier.holding import Hold
+        name = VIA[via][0]
+        objs = [(KEYS[q], self._new(pre)) for q, pre in items]
+        sub = ("_hold_subery", self.sub)
+        if name == "setitem":
+            for k, o in objs:
+                self.hold[k] = o
+        elif name == "setattr":
+            for k, o in objs:
+                setattr(self.hold, k, o)
+        elif name == "update_mapping":
+            self.hold.update(dict(objs))
+        elif name == "update_list":
+            self.hold.update(list(objs))
+        elif name == "update_tuple":
+            self.hold.update(tuple(objs))
+        elif name == "update_zip":
+            self.hold.update(zip([k for k, _ in objs], [o for _, o in objs]))
+        elif name == "update_generator":
+            self.hold.update((k, o) for k, o in objs)
+        elif name == "update_iter":
+            self.hold.update(iter(list(objs)))
+        elif name == "update_map":
+            self.hold.update(map(lambda ko: ko, objs))
+        elif name == "update_kw":
+            self.hold.update(**dict(objs))
+        elif name == "update_empty_kw":
+            self.hold.update({}, **dict(objs))
+        elif name == "ctor_mapping":
+            self.hold = Hold(dict([sub] + objs))
+        elif name == "ctor_list":
+            self.hold = Hold([sub] + objs)
+        elif name == "ctor_zip":
+            self.hold = Hold(zip([sub[0]] + [k for k, _ in objs], [sub[1]] + [o for _, o in objs]))
+        elif name == "ctor_generator":
+            self.hold = Hold(ko for ko in [sub] + objs)
+        elif name == "ctor_kw":
+            self.hold = Hold(**dict([sub] + objs))
+        else:
+            raise ValueError(name)
+        ok = {}
+        for (q, _), (k, o) in zip(items, objs):
+            self.qs[q] = o
+            ok[q] = bool(o.durable) and o._key == k and o._sdb is self.sdb and self.hold[k] is o and not o.stale
+        return ok
 
     def close(self, clear=False):
         if self.sub is not None:
@@ -182,22 +258,41 @@ def _ret(r):
     return ["val", r]
 
 
+def _enter_all(w, via, pre):
+    """All three queues enter the Hold: via = [v0, v1, v2] one call each, or an int = all in one call."""
+    if isinstance(via, int):
+        ok = w.enter([(q, pre.get(str(q), [])) for q in range(3)], via)
+        return [(q, ok[q]) for q in range(3)]
+    return [(q, w.enter([(q, pre.get(str(q), []))], via[q])[q]) for q in range(3)]
+
+
+def _vias(case):
+    """entry point of every model-level Enter event, in event order"""
+    def three(v):
+        return [v] * 3 if isinstance(v, int) else list(v)
+    out = three(case.get("via0", [0, 0, 0]))
+    for o in case["ops"]:
+        if o[0] == "reopen":
+            out += three(o[2] if len(o) > 2 else [0, 0, 0])
+        elif o[0] == "reinject":
+            out.append(o[3] if len(o) > 3 else 0)
+    return out
+
+
 def run_impl(case):
     w = _World(case["kind"])
     obs = []
     try:
         w.open()
-        for q in range(3):
-            w.inject(q, [])
-            obs.append(w.snap(q, ["ok", ["bool", True]]))   # sync() of a fresh empty queue pins and returns True
+        for q, ok in _enter_all(w, case.get("via0", [0, 0, 0]), {}):
+            obs.append(w.snap(q, ["ok", ["bool", ok]]))     # entered the Hold: injected (key, sub-db bound, synced)?
         for o in case["ops"]:
             name = o[0]
             if name == "reopen":
                 w.close()
                 w.open()
-                for q in range(3):
-                    w.inject(q, o[1].get(str(q), []))
-                    obs.append(w.snap(q, ["ok", ["bool", True]]))
+                for q, ok in _enter_all(w, o[2] if len(o) > 2 else [0, 0, 0], o[1]):
+                    obs.append(w.snap(q, ["ok", ["bool", ok]]))
                 continue
             q = o[1]
             obj = w.qs[q]
@@ -233,8 +328,7 @@ def run_impl(case):
                 elif name == "removebad":
                     r = _ret(obj.remove(_bad(o[2], in_batch=False)))
                 elif name == "reinject":
-                    w.inject(q, o[2])
-                    r = ["bool", True]
+                    r = ["bool", w.enter([(q, o[2])], o[3] if len(o) > 3 else 0)[q]]
                 else:
                     raise ValueError(name)
                 res = ["ok", r]
@@ -344,6 +438,9 @@ def oracle(case, obs):
             # a rejected operation raises and leaves cache and durable copy unchanged (and equal)
             want = ["exc", "HierErr"]
         what = "queue" if not isset else "ordered set"
+        if name == "reopen1" and res == ["ok", ["bool", False]]:
+            return (f"event {n}: the queue put into the Hold at {KEYS[q]!r} was not injected (not durable / no key / "
+                    f"no sub-db / not synced): its operations cannot reach the store")
         if res != want:
             return f"event {n} {name} on {KEYS[q]!r}: returned {res}, a {what} returns {want}"
         if mem != l:
@@ -389,10 +486,10 @@ def _vals(ser, idxs):
     return coq_list([_b(ser[i]) for i in idxs], "bytes")
 
 
-def _coq_ev(ser, q, o):
+def _coq_ev(ser, q, o, via=0):
     name = o[0]
     if name == "reopen1":
-        t = f"(Durq.Reopen {_vals(ser, o[1])})"
+        t = f"(Durq.Enter {VIA[via][1]} {_vals(ser, o[1])})"
     elif name == "push":
         t = f"(Durq.Push {_b(ser[o[1]])})"
     elif name == "pushnone":
@@ -424,6 +521,13 @@ def _coq_ev(ser, q, o):
     return f"({coq_N(q)}, {t})"
 
 
+def _coq_evs(ser, ev, vias):
+    out, it = [], iter(vias)
+    for q, o in ev:
+        out.append(_coq_ev(ser, q, o, next(it) if o[0] == "reopen1" else 0))
+    return out
+
+
 def _coq_res(res):
     if res[0] == "exc":
         return f"(Exc {res[1]})"
@@ -446,7 +550,7 @@ def to_coq(case, obs):
     return ("{| Durq.c_names := names; Durq.c_set := %s; Durq.c_eq := %s; Durq.c_ops := %s; Durq.c_obs := %s |}" % (
         coq_bool(case["kind"] == "dusq"),
         "eqt",
-        coq_list([_coq_ev(ser, q, o) for q, o in ev], "N * Durq.qop"),
+        coq_list(_coq_evs(ser, ev, _vias(case)), "N * Durq.qop"),
         coq_list(snaps, "Durq.snap")))
 
 
